@@ -3,6 +3,7 @@ package main
 import (
 	"fmt"
 	"sync"
+	"sync/atomic"
 
 	"github.com/Jigsaw-Code/outline-ss-server/service"
 )
@@ -160,24 +161,29 @@ func c07(ctx *Ctx) {
 
 	// concurrent presentations of one fresh handshake: exactly one winner (monitor only;
 	// the theorem is concurrent_one_winner).
-	batches := 40
+	batches := 1500
+	if ctx.Thorough() {
+		batches = 20000
+	}
 	for b := 0; b < batches; b++ {
 		capacity := []int{1, 2, 8, 64}[r.Intn(4)]
 		cache := service.NewReplayCache(capacity)
 		salt := r.Bytes(32)
-		const G = 16
+		G := 2 + r.Intn(7)
 		var wg sync.WaitGroup
 		res := make([]bool, G)
-		start := make(chan struct{})
+		// a spin barrier: the copies are presented at the same instant, not one wake-up after another
+		var ready int32
 		for g := 0; g < G; g++ {
 			wg.Add(1)
 			go func(g int) {
 				defer wg.Done()
-				<-start
+				atomic.AddInt32(&ready, 1)
+				for atomic.LoadInt32(&ready) < int32(G) {
+				}
 				res[g] = cache.Add("k", salt)
 			}(g)
 		}
-		close(start)
 		wg.Wait()
 		wins := 0
 		for _, x := range res {
